@@ -74,6 +74,9 @@ def C02(tier):
              cases_from=["MC_Select_emit", "MC_Bulk_emit"], params={"strides": "1/-3" if tier == "quick" else "1/2/-1/-3"}),
         dict(name="random_dev", family="sort", trace="Trace_Sort", trace_constants=FIX, profile="dev", chunk=3000,
              gen=dict(count=(4000, 24000), params={"kinds": "select/bulk", "oor_den": "0"})),
+        # lanes beyond the usual small-array thresholds of sorting code (120..200 elements)
+        dict(name="long_lanes", family="sort", trace="Trace_Sort", trace_constants=FIX, profile="dev", chunk=40,
+             gen=dict(count=(240, 2400), params={"kinds": "select/bulk", "oor_den": "0", "long": "1"}), params={"frame": "1"}),
     ]
     return dict(models=models, stages=stages, nontrivial=sort_nontrivial, exhaustive=True,
                 rule="every complete behaviour (pattern, index or request list, pivot sequence) of MC_Select_emit / MC_Bulk_emit "
@@ -250,6 +253,8 @@ def C03(tier):
         dict(name="quantile_frame", family="quant", trace="Trace_Quant", profile="dev", gen=dict(count=(2500, 25000))),
         dict(name="nan_frame", family="nan", trace="Trace_Nan", trace_constants=FIX3, profile="dev", gen=dict(count=(2500, 25000))),
         dict(name="qskip_frame", family="minmax", trace="Trace_MinMax", profile="dev", gen=dict(count=(2000, 20000), params={"kinds": "qskip"})),
+        dict(name="sort_frame_long_lanes", family="sort", trace="Trace_Sort", trace_constants=FIX, profile="dev", chunk=40,
+             gen=dict(count=(240, 2400), params={"oor_den": "0", "long": "1"}), params={"frame": "1"}),
     ]
     models = [
         dict(module="Partition", name="MC_Partition",
